@@ -1416,6 +1416,15 @@ def value_source(ix, defs, n):
         if d[0] == "let" and "init" in d[1] and d[2].get("k") == "pbind":
             n = strip_try(d[1]["init"])
             continue
+        if d[0] == "let" and "init" not in d[1] and d[2].get("k") == "pbind" and not d[2].get("mut") and id(n) in ix.regions:
+            # deferred initialisation `let x; .. x = e; .. use(x)`: the one assignment that runs before this use on its path
+            here = ix.regions[id(n)]
+            asg = [a for a in ix.nodes if a.get("k") == "assign" and is_local(a["l"], n["id"]) and id(a) in ix.regions
+                   and ix.regions[id(a)] == here[:len(ix.regions[id(a)])] and ix.precedes(a, n)]
+            if len(asg) == 1:
+                n = strip_try(asg[0]["r"])
+                continue
+            return n
         if d[0] == "closure" and len(d[1]["params"]) == 1:
             q = ix.parent.get(id(d[1]))
             while q is not None and q.get("k") == "ref":
